@@ -116,7 +116,7 @@ class World(BaseWorld):
         rc = st.get('config')
         ro = st.get('ops')
         types = list(rc.choice(NAMESETS))
-        n = rc.randrange(2, 26)
+        n = rc.randrange(2, 26) if tier != 'thorough' else rc.randrange(2, 60)
         # swarm: per-run op weights
         w = {'set': rc.uniform(1, 4), 'set_from_stored': rc.uniform(0, 1), 'setUnset': rc.uniform(0, 1.5),
              'apply': rc.uniform(0, 1.5), 'mutate_stored': rc.uniform(0.5, 3), 'mutate_caller': rc.uniform(0, 2),
